@@ -802,7 +802,7 @@ def coq_show(c):
         return "option_map (fun m : fit_result => (Trim.tr_keep (fst m), Builders.result_red (Some (snd m)))) (msm_fit %s %s %s)" % (
             _X(c, r), _cself(c), _ctrjs(c["trjs"]))
     if k == "eig":
-        return _eig_model(c, run_impl(c))
+        return "option_map (fun r => (map Qred (fst r), Builders.mat_red (snd r))) " + _eig_model(c, run_impl(c))
     if k == "ens":
         return _ens_model(c)
     return clist(_imp_terms(c, None), lambda x: "option_map Builders.mat_red " + x)
